@@ -449,5 +449,12 @@ def r01_refused(ctx):
     ctx.borrow(c03.r03_3_copy, 'R01.9')
 
 
-RULES = [('R01.9', r01_refused), ('R01.8', r01_frozen), ('R01.0', r01_0), ('R01.1', r01_1), ('R01.2', r01_2), ('R01.3', r01_3), ('R01.4', r01_4),
+def r01_dict(ctx):
+    """What dict() exports is the caller's: a new dictionary, never the message's own attribute table (editing the export would
+    edit the message past every check, and bytes() would encode whatever was written) - shared with C14 R14.5."""
+    from . import c14
+    ctx.borrow(c14.r14_dict, 'R01.10')
+
+
+RULES = [('R01.10', r01_dict), ('R01.9', r01_refused), ('R01.8', r01_frozen), ('R01.0', r01_0), ('R01.1', r01_1), ('R01.2', r01_2), ('R01.3', r01_3), ('R01.4', r01_4),
          ('R01.5', r01_5), ('R01.6', r01_6)]
